@@ -117,8 +117,40 @@ def big_case(nfields, nfns):
     return case(ops, qs)
 
 
+def huge_case(nfields, nfns):
+    """more names than a 16-bit index can tell apart (thorough tier: the model and the specification need about
+    three minutes each for the 2*10^9 name comparisons).  Names are the decimal number written backwards plus a
+    letter, so that most comparisons are decided by the first byte.  No `fields` / `functions` / `scheme-eq`
+    queries: their model is quadratic."""
+    def nm(pre, i):
+        return str(i)[::-1].encode() + pre
+    ops = []
+    for i in range(max(nfields, nfns)):
+        if i < nfields:
+            ops.append(("field" if i % 3 else "ofield", nm(b"f", i), TYPES[i % 4]))
+        if i < nfns:
+            ops.append(("fn", nm(b"g", i)))
+    names = []
+    for pre, n in ((b"f", nfields), (b"g", nfns)):
+        names += [nm(pre, i) for i in sorted({0, 1, 255, 256, 65535, 65536, 65537, n - 2, n - 1, n}) if 0 <= i]
+    qs = [q for q in queries(names, ["int"], names) if q not in ("fields", "functions") and q != ("scheme-eq",)]
+    return case(ops, qs)
+
+
+def stack_can_grow():
+    """the extracted model recurses along the history: it needs a stack limit that can be lifted (tools/vp.py does)"""
+    try:
+        import resource
+        hard = resource.getrlimit(resource.RLIMIT_STACK)[1]
+        return hard == resource.RLIM_INFINITY or hard >= (1 << 30)
+    except Exception:
+        return False
+
+
 def gen(rng, tier):
     out = []
+    if tier == "thorough" and stack_can_grow():
+        out.append(huge_case(65540, 3))
     for nf, ng in ((255, 3), (256, 256), (257, 0), (300, 300), (5, 257)) + (((2000, 1000),) if tier == "thorough" else ()):
         out.append(big_case(nf, ng))
     k = 4 if tier == "thorough" else 3
